@@ -107,7 +107,15 @@ pub fn execute(w: &Work) -> String {
                 let sq = square(100.0 + 3.0 * k as f64, 100.0 + 2.0 * (k % 3) as f64, 1.0);
                 tris.extend(sq.earcut_triangles());
             }
-            format!("{:?}", tris.stitch_triangulation())
+            // sums over the members of a MultiPolygon (geodesic perimeter / area of 16+ small lon/lat squares): a re-associated
+            // floating-point sum would change the last bits from call to call
+            let geod = {
+                use geo::GeodesicArea;
+                let n = 16 + *squares as usize;
+                let many = MultiPolygon::new((0..n).map(|k| square(-170.0 + 7.3 * k as f64 * 0.37, -60.0 + 1.9 * (k % 11) as f64, 0.013 * (1 + k % 5) as f64)).collect());
+                format!("{:?}|{:?}|{:?}|{:?}", many.geodesic_perimeter().to_bits(), many.geodesic_area_signed().to_bits(), many.geodesic_area_unsigned().to_bits(), many.geodesic_perimeter_area_signed())
+            };
+            format!("{:?}|{geod}", tris.stitch_triangulation())
         }
         Work::Triangulate { g, kind } => {
             let mp = to_mp(g);
